@@ -184,6 +184,22 @@ PROPS = {
         nontrivial="history contains a load into a world that already holds one of the data's marker ids and that "
                    "also creates an entity, or a Mark of an already marked entity",
     ),
+    "C19": dict(
+        domain="unwind", module="Props.C19",
+        theorems=["C19_nofault_clear", "C19_nofault_drop", "C19_nofault_insert",
+                  "C19_nofault_remove", "C19_strong_is_MInv", "C19_MInv_implies_weak",
+                  "C19_abandoned_loop", "C19_drop_glue", "C19_clear",
+                  "C19_clear_leaks", "C19_drop_components", "C19_insert",
+                  "C19_remove", "C19_get_returns_owned", "C19_join_returns_owned",
+                  "C19_slice_returns_owned", "C19_step", "C19_no_double_drop",
+                  "C19_teardown_no_double_drop", "C19_no_stale_read", "C19_invariant_after_any_history",
+                  "C19_faulting_delete_leaves", "C19_delete_kills_first", "C19_maintain_merges_first",
+                  "C19_other_storages_untouched", "C19_changeset_add", "C19_changeset_no_double_drop",
+                  "C19_changeset_no_stale_read"],
+        required="faithful",
+        nontrivial="the armed destructor fault really fired and a later destroying operation (or at least two later "
+                   "operations) ran on the surviving world",
+    ),
 }
 
 # ------------------------------------------------------------------ known findings
@@ -920,6 +936,9 @@ def run_check(pid, tier, seed):
     if dom == "saveload":
         from . import saveload_check      # imported here: saveload_check imports this module
         return saveload_check.check_saveload(pid, tier, seed)
+    if dom == "unwind":
+        from . import unwind_check
+        return unwind_check.check_unwind(pid, tier, seed)
     raise SystemExit("unknown domain")
 
 
@@ -941,6 +960,9 @@ def replay(path):
     if obj.get("domain") == "saveload":
         from . import saveload_check
         return saveload_check.replay_saveload(obj, path)
+    if obj.get("domain") == "unwind":
+        from . import unwind_check
+        return unwind_check.replay(obj, path)
     if "encoded" not in obj:
         print(json.dumps(obj, indent=1))
         return 1
